@@ -230,6 +230,68 @@ def o17_4_disk_lock_file(mir, tier):
     return res
 
 
+def o12_10_disk_create_file(mir, tier):
+    """<OsFileSystem as FileSystem>::create_file and the TmpFileSystem one with the operating system by contract (every OpenOptions
+    setter is recorded, open free to fail): the file at the given (rooted) path is opened with create + write, in **append mode**
+    exactly when the caller asked for it (every write then goes to the end of the file: LogWriter writes with write_all, a reused
+    log must never be overwritten from the start) and truncated exactly when it did not; a failed open is reported."""
+    fns = [f for f in mir.fns.values() if f.name == 'create_file' and 'fs_disk' in f.path]
+    if len(fns) != 2: raise Inconclusive('expected two disk create_file implementations, found %d' % len(fns))
+    res = Result('O12.10 disk file systems: create_file', [f.path for f in fns], 'append flag free; OpenOptions setters recorded with their (possibly symbolic) arguments; open free to fail')
+    t0 = time.time()
+    open_ok, app = Bool('open_ok'), Bool('append_requested')
+    for fn in fns:
+        S = lib.std_summaries(); P = S['$patterns']
+        def val(se, env, x):
+            k = 0
+            while isinstance(x, Ref) and k < 8: x = se.deref(env, x); k += 1
+            return x
+        P[r'OpenOptions::new'] = lambda se, env, pc: lib.one(env, {'open_options': True})
+        def setter(name):
+            def f(se, env, pc, o, b):
+                st = dict(env['$state']); st['set'] = st['set'] + [(name, b)]
+                return [(None, o, st)]
+            return f
+        for nm in ('read', 'write', 'create', 'truncate', 'append', 'create_new'): P[r'OpenOptions::' + nm] = setter(nm)
+        P[r'TmpFileSystem::get_rooted_path'] = lambda se, env, pc, fs, p: lib.one(env, {'rooted': val(se, env, p)})
+        def open_(se, env, pc, o, path):
+            st = dict(env['$state']); st['opened'] = st['opened'] + [val(se, env, path)]
+            return [(open_ok, Enum('Ok', ({'file_handle_of': val(se, env, path)},)), st), (Not(open_ok), Enum('Err', ({'kind': 'io', '__ty': 'io::Error'},)), st)]
+        P[r'OpenOptions::open(?:::<.*>)?'] = open_
+        P[r'<PathBuf as Deref>::deref'] = lib.ident; P[r'<PathBuf as AsRef<Path>>::as_ref'] = lib.ident; P[r'<&PathBuf as AsRef<Path>>::as_ref'] = lib.ident
+        ex = Exec(mir, S, loop_bound=3)
+        is_tmp = 'TmpFileSystem' in (fn.self_ty or '') or any(x in fn.path for x in (':239:', ' 239:'))
+        def k(ret, env, pc, ex=ex, fn=fn):
+            st = env['$state']; ok = isinstance(ret, Enum) and ret.tag == 'Ok'
+            def flag(name):
+                # the value the option ends up with (last setter wins; never set = false)
+                v = BoolVal(False)
+                for n, b in st['set']:
+                    if n == name: v = b if not isinstance(b, bool) else BoolVal(b)
+                return v
+            opened = st['opened']
+            path_ok = len(opened) == 1 and (opened[0] == {'path': 'file'} or opened[0] == {'rooted': {'path': 'file'}})
+            posts = [('create_file does not open exactly the file it was asked for', BoolVal(path_ok)),
+                     ('create_file reports success although the file could not be opened (or fails although it could)', BoolVal(ok) == open_ok),
+                     ('a file requested for appending is not opened in append mode (writes of a reused log or manifest start at offset 0 and overwrite the records that are already there)', flag('append') == app),
+                     ('a file that was not requested for appending is not truncated (or one requested for appending is)', flag('truncate') == Not(app)),
+                     ('the file is not opened for writing / not created when missing', And(flag('write') if True else BoolVal(True), flag('create')))]
+            res.cases['%s: %s' % (fn.path[-40:], [n for n, _ in st['set']])] = 1
+            for label, post, m in ex.check_posts(posts, pc):
+                res.violations.append({'label': label, 'file_system': fn.path[-60:], 'append_requested': mval(m, app), 'replay': ['disk_log_reuse']})
+        ex.top(fn, [{'abstract': True, '__ty': 'fs'}, {'path': 'file'}, app], {'$state': {'set': [], 'opened': []}}, [], k)
+        res.absorb(ex)
+    res.wall_s = time.time() - t0
+    if res.violations: res.status = 'violation'
+    return res
+
+
+def o12_10_confirm(v, out):
+    """Native: a database on the disk-backed TmpFileSystem with log reuse: write, reopen, write, reopen; every acknowledged write is read back."""
+    if out.get('_rc') != 0: return (True, 'native run failed / panicked: %s' % out.get('_stderr', '')[-300:])
+    return (out.get('wrong', '1') != '0', 'native (disk file system, log reuse on): after write / reopen / write / reopen %s of %s acknowledged keys read something else (first: %s)' % (out.get('wrong'), out.get('keys'), out.get('first_wrong')))
+
+
 def o17_4_confirm(v, out):
     """Native (disk file system, real flock): the owner is open; two open attempts and a destroy attempt in a row must all be refused;
     the owner keeps working."""
